@@ -18,12 +18,18 @@ Inductive envact :=
 Section Run.
 Variable g : cfg.
 
-Definition caller_actions (c : N) : list action :=
-  [ACheck c] ++ map (AEnq c) (seq 0 (List.length (enq_arms g)))
-             ++ map (AWait c) (seq 0 (List.length (wait_arms g))) ++ [AFront c].
+(** The steps a caller can possibly take, given where it is. *)
+Definition caller_actions (c : N) (x : caller) : list action :=
+  match c_pc x with
+  | CStart => [ACheck c]
+  | CEnq => map (AEnq c) (seq 0 (List.length (enq_arms g)))
+  | CWait => map (AWait c) (seq 0 (List.length (wait_arms g)))
+  | CRet => if c_closeall x then [AFront c] else []
+  | CFront => []
+  end.
 
 Definition internal_actions (s : state) (wok : bool) : list action :=
-  flat_map (fun cx => caller_actions (fst cx)) (callers s) ++
+  flat_map (fun cx => caller_actions (fst cx) (snd cx)) (callers s) ++
   [ATake wok; AFetch; AReadErrS; AFail; ACloseDone] ++
   map ARSend (seq 0 (List.length (fsend_arms g))) ++
   map ARRecv (seq 0 (List.length (frecv_arms g))) ++ [ARDone].
